@@ -360,6 +360,7 @@ func rulesC09(c *Ctx) {
 	c.Floor("C09.opcorr", nArms, 150)
 	c.Floor("C09.signtest", nSign, 10)
 	shortcutsC09(c, tt, "C09.shortcuts")
+	zoneC09(c)
 }
 
 func boolConstOf(p *Program, e ast.Expr) (bool, bool) {
